@@ -698,11 +698,25 @@ def check(pid, tier, seed):
             big_viol = br['failures']
             big_info = dict(archetypes=256, builds=br['builds'])
 
+    api_info = None
+    api_viol = []
+    if P.get('api'):
+        ar = side_probe.run_api(REPO, CACHE)
+        if ar['error']:
+            broken.append(('build', 'api probe: ' + ar['error']))
+        else:
+            api_viol = ar['failures']
+            api_info = dict(builds=ar['builds'], checks=ar['checks'])
+
     violations = []
     known_hits = []
     kf = known_findings()
     for v in c18_viol:
         path = write_replay(pid, dict(property=pid, kind='specification-violation', harness='c18', detail=v, broken=broken))
+        violations.append('VIOLATION property=%s replay=%s' % (pid, path))
+    for v in api_viol[:3]:
+        path = write_replay(pid, dict(property=pid, kind='specification-violation', harness='api_probe', reason=v, broken=broken,
+                                      how='harness/api_probe: every rarely used entry point compared with the commonly used one that must agree with it; see the header of its main.rs'))
         violations.append('VIOLATION property=%s replay=%s' % (pid, path))
     for v in big_viol[:2]:
         path = write_replay(pid, dict(property=pid, kind='specification-violation', harness='big_probe', reason=v, broken=broken,
@@ -914,14 +928,14 @@ def check(pid, tier, seed):
             trusted_base=['Coq 8.16.1 kernel incl. vm_compute', 'tools/extract.py (translator)', 'correspondence harness (harness/storage_harness, tools/gen_ops.py, tools/coqrun.py)',
                           'rustc/cargo', 'axioms: ' + (', '.join(axioms) if axioms else 'none (Closed under the global context)')],
             theorems=thms, cone_files=conefiles,
-            evaluations=total_cases + (big_info['builds'] if big_info else 0) + (side_info['scenarios'] if side_info else 0) + (1 if fill_info else 0) + (len(cycle_info['runs']) if cycle_info else 0) + (cfgp_info['pairs_compiled_and_compared'] if cfgp_info else 0) + (macro_info['cases'] if macro_info else 0) + ((c18_info['programs'] + c18_info['expansions_checked']) if c18_info else 0),
+            evaluations=total_cases + (big_info['builds'] if big_info else 0) + (side_info['scenarios'] if side_info else 0) + (1 if fill_info else 0) + (api_info['checks'] if api_info else 0) + (len(cycle_info['runs']) if cycle_info else 0) + (cfgp_info['pairs_compiled_and_compared'] if cfgp_info else 0) + (macro_info['cases'] if macro_info else 0) + ((c18_info['programs'] + c18_info['expansions_checked']) if c18_info else 0),
             distinct_nontrivial=len(distinct) + (macro_info['distinct'] if macro_info else 0) + ((c18_info['programs'] + c18_info['expansions_checked']) if c18_info else 0),
             rule='histories generated interactively from VERIF_SEED per stream; non-trivial = at least 10 operations including every kind in %s; distinct by the hash of the operation list' % sorted(need),
             traces_validated_against_impl=total_cases,
             model_disagreements=len(diffs), spec_failures=len(own),
             streams=[dict(config=cn, cases=s['cases'], ops=s['ops'], histories_meeting_run_theorem_hypotheses=s.get('wf_histories', 0), histories_meeting_history_theorem_hypotheses=s.get('hist_histories', 0), ops_by_kind=s['by_kind'], outcomes=s['outcomes']) for cn, s in stats_all],
             samples=([sample] if sample else []) + ([macro_info['sample']] if macro_info else []),
-            macro=macro_info, c18=c18_info, fill=fill_info, cycle=cycle_info, big_world=big_info, side_probe=side_info, cfg_probe=cfgp_info, coqchk=coqchk_note, programs=(c18_info['programs'] if c18_info else 0),
+            macro=macro_info, c18=c18_info, fill=fill_info, api_probe=api_info, cycle=cycle_info, big_world=big_info, side_probe=side_info, cfg_probe=cfgp_info, coqchk=coqchk_note, programs=(c18_info['programs'] if c18_info else 0),
             exhaustive=any(r['case'].get('exhaustive') for r in all_results) if pid == 'C11' else False,
             explanation='machine-checked theorems over the model; model tied to the source by translation (coq/gen regenerated this run) and by differential execution of the same operations on the implementation',
         ),
@@ -986,6 +1000,14 @@ def replay(path):
         print('recorded:', j['reason'])
         print('now:', hit[0]['what'] if hit else 'decorated and erased declarations agree', cr['error'] or '')
         if hit:
+            print('VIOLATION property=%s replay=%s' % (pid, path))
+            return 1
+        return 0
+    if j.get('harness') == 'api_probe':
+        ar = side_probe.run_api(REPO, CACHE)
+        print('recorded:', j['reason'])
+        print('now:', ar['failures'], ar['error'])
+        if ar['failures']:
             print('VIOLATION property=%s replay=%s' % (pid, path))
             return 1
         return 0
